@@ -351,7 +351,9 @@ def to_wsrun(case: dict) -> dict:
             client += [[k, p], ["flush"]]
         if wr.get("srv_ping"):
             client += [["sleep", 1.5 * wr["srv_ping"]]]
-        client += [["unstall"], ["flush"]]
+        # ... and gives the server (virtual) time to write everything its application still sends before it closes: a client that
+        # closes while the application is still sending is not owed the rest (the monitor expects every message)
+        client += [["unstall"], ["sleep", 3.0], ["flush"]]
     else:
         client = [m[:4] for m in sess["msgs"]] + [[k, p] for k, p in sess["trail"]] + [["flush"]]
     client += [["reply_close"]] if lg["over"] is not None else [["close", 1000], ["flush"]]
